@@ -92,7 +92,7 @@ CLAIMS = {
             "(C01_encode_err_only_from_writer). PARTIAL: C01_encode_never_panics_partial excludes the decidable class "
             "neg_dist_class (osu!/catch slider with negative curve distance = the D18 clamp panic); it is proved empty "
             "outside osu!-mode Catmull sliders and when the Catmull surplus is outweighed by one segment; the residue needs "
-            "an f32 rounding analysis (none found in 192M random + exhaustive small grids, probes_C01_negdist/). OPEN: "
+            "an f32 rounding analysis (none found in 192M random + exhaustive small grids, probes/C01_negdist/). OPEN: "
             "memory safety of the unsafe blocks (outside the model). Tie to the code: all nine decoders on "
             "noise, grammar files, mutations, truncations at every length, BOM/UTF-16 variants, large and ill-conditioned "
             "sliders, clusters of objects within 8 ulps in time, byte-level composed model correspondence, in release, debug (overflow checks) and tracing-feature "
